@@ -36,6 +36,11 @@ func wedgeMain(args []string) {
 	phases := cf.count
 	var mu sync.Mutex
 	done := 0
+	if cf.replay == "" {
+		// first: the goroutine diagnoser looks at the whole process, and this scenario must not be judged by what
+		// the deliberate replays of the known findings leave behind
+		done += blockedWriteScenario(sum)
+	}
 	seeds := make(chan int64, phases)
 	for i := 0; i < phases; i++ {
 		seeds <- r.Int63()
